@@ -55,24 +55,49 @@ def field_reads(fn):
     return out
 
 
-def x_comparison(prog, cond, xname):
-    """Find an atom comparing parameter x with an abscissa element X[m]; returns (op, index expr, atom) with x on the left."""
+def x_comparisons(prog, cond, xname, arrname=None):
+    """All atoms comparing parameter x with an array element X[m]: [(op with x on the left, index expr, array name, polarity-ok)]."""
     f = G.from_cond(cond)
-    for a in G.f_atoms(f):
-        a = strip(a)
-        if a.get('k') != 'Bin' or a['op'] not in ('<', '>', '<=', '>='):
-            continue
-        l, r = strip_casts(a['lhs']), strip_casts(a['rhs'])
-        flip = {'<': '>', '>': '<', '<=': '>=', '>=': '<='}
-        if l.get('k') == 'Ref' and l.get('name') == xname and r.get('k') == 'Index':
-            return a['op'], strip_casts(r['idx']), a
-        if r.get('k') == 'Ref' and r.get('name') == xname and l.get('k') == 'Index':
-            return flip[a['op']], strip_casts(l['idx']), a
-    return None
+    out = []
+
+    def rec(f, positive, conj):
+        k = f[0]
+        if k == 'atom':
+            a = strip(f[1])
+            if a.get('k') != 'Bin' or a['op'] not in ('<', '>', '<=', '>='):
+                return
+            l, r = strip_casts(a['lhs']), strip_casts(a['rhs'])
+            flip = {'<': '>', '>': '<', '<=': '>=', '>=': '<='}
+            neg = {'<': '>=', '>': '<=', '<=': '>', '>=': '<'}
+            op = idx = arr = None
+            if l.get('k') == 'Ref' and l.get('name') == xname and r.get('k') == 'Index':
+                op, idx, arr = a['op'], strip_casts(r['idx']), show(strip(r['base']))
+            elif r.get('k') == 'Ref' and r.get('name') == xname and l.get('k') == 'Index':
+                op, idx, arr = flip[a['op']], strip_casts(l['idx']), show(strip(l['base']))
+            if op is None or (arrname is not None and arr != arrname):
+                return
+            if not positive:
+                op = neg[op]
+            out.append((op, idx, arr, conj))
+        elif k == 'not':
+            rec(f[1], not positive, conj)
+        elif k == 'and':
+            for x in f[1]:
+                rec(x, positive, conj and positive)
+        elif k == 'or':
+            for x in f[1]:
+                rec(x, positive, conj and not positive)
+    rec(f, True, True)
+    return out
+
+
+def x_comparison(prog, cond, xname):
+    xs = x_comparisons(prog, cond, xname)
+    return (xs[0][0], xs[0][1], None) if xs else None
 
 
 def assigns_in(stmt):
-    """Top-level assignments `V = expr` executed in stmt before any nested branching (first-level only)."""
+    """Top-level assignments `V = expr` / returns executed in stmt before any nested branching (first level only)."""
     out = []
     stmts = stmt['body'] if stmt and stmt['k'] == 'Compound' else ([stmt] if stmt else [])
     for s in stmts:
@@ -85,13 +110,24 @@ def assigns_in(stmt):
     return out
 
 
-def closedness_sites(prog, fn):
-    """For every comparison of x with X[m] in a search: where does the equality case x==X[m] put m?"""
+def closedness_sites(prog, fn, arrname=None, lower_override=None):
+    """For every comparison of x with X[m] in a search: on which side does the equality case x==X[m] put m?
+
+    'left'  = m becomes (or stays) the lower end  -> segments [X(j), X(j+1))
+    'right' = m becomes (or stays) the upper end  -> segments (X(j), X(j+1)]"""
     xname = fn.params[0]['name']
-    # lower = the variable returned at the end
     rets = [s for s in walk_stmts(fn.body) if s['k'] == 'Return']
     final = strip_casts(rets[-1]['e']) if rets else None
-    lower = final['name'] if final and final.get('k') == 'Ref' else None
+    lower = lower_override or (final['name'] if final and final.get('k') == 'Ref' else None)
+    sx = Symx(prog, fn)
+    st0 = State({})
+
+    def ival(e):
+        try:
+            return sx.sym(e, st0)
+        except Undecided:
+            return None
+
     sites = []
 
     def role_of(var):
@@ -100,49 +136,153 @@ def closedness_sites(prog, fn):
     def eq_true(op):
         return op in ('>=', '<=')
 
+    def outcome(branch, m):
+        """closedness implied by the first index move in `branch` relative to element index m."""
+        mv = ival(m)
+        for var, rhs, st in assigns_in(branch):
+            if rhs is None:
+                continue
+            rv = ival(rhs)
+            if rv is None or mv is None:
+                continue
+            d = sp.simplify(rv - mv)
+            low = (var == '<return>' or role_of(var) == 'lower')
+            if low and d == 0:
+                return 'left'
+            if low and d == -1:
+                return 'right'
+            if not low and d == 0:
+                return 'right'
+            if not low and d == 1:
+                return 'left'
+        return None
+
     def visit(s):
         if s is None:
             return
         k = s['k']
         if k in ('If', 'While'):
-            xc = x_comparison(prog, s['cond'], xname)
-            if xc:
-                op, idx, atom = xc
+            for op, idx, arr, conj in x_comparisons(prog, s['cond'], xname, arrname):
                 m = show(idx)
+                res = None
+                if not conj:
+                    sites.append({'stmt': s, 'op': op, 'm': m, 'closed': None, 'kind': k.lower(), 'arr': arr})
+                    continue
                 if k == 'If':
-                    branch = s['then'] if eq_true(op) else s.get('else')
-                    res = None
-                    # follow else-if chains on the same element
-                    cur = branch
+                    cur = s['then'] if eq_true(op) else s.get('else')
+                    # follow else-if chains that test the same element again
                     while cur is not None and cur['k'] == 'If':
-                        xc2 = x_comparison(prog, cur['cond'], xname)
-                        if not xc2 or show(xc2[1]) != m:
+                        again = [c for c in x_comparisons(prog, cur['cond'], xname, arrname) if show(c[1]) == m]
+                        if not again:
                             break
-                        cur = cur['then'] if eq_true(xc2[0]) else cur.get('else')
-                    for var, rhs, st in assigns_in(cur):
-                        if rhs is not None and show(rhs) == m:
-                            res = 'left' if (var == '<return>' or role_of(var) == 'lower') else 'right'
-                            break
-                    if res is None and cur is not None:
-                        # the index expression is a variable that keeps its role
-                        if idx.get('k') == 'Ref':
-                            # e.g. if(x > X[jLast]) ... else if(x < X[jLast]) ... else return jLast
-                            pass
-                    sites.append({'stmt': s, 'op': op, 'm': m, 'closed': res, 'kind': 'if'})
+                        cur = cur['then'] if eq_true(again[0][0]) else cur.get('else')
+                    res = outcome(cur, idx)
+                    if res is None and (cur is None or not assigns_in(cur)):
+                        res = 'neutral'
                 else:
-                    body_moves = [(var, rhs) for var, rhs, st in assigns_in(s['body']) if rhs is not None and show(rhs) == m]
-                    res = None
                     if eq_true(op):
-                        for var, rhs in body_moves:
-                            res = 'left' if role_of(var) == 'lower' else 'right'
-                    else:
-                        if idx.get('k') == 'Ref':
-                            res = 'left' if role_of(idx['name']) == 'lower' else 'right'
-                    sites.append({'stmt': s, 'op': op, 'm': m, 'closed': res, 'kind': 'while'})
+                        res = outcome(s['body'], idx)
+                    elif idx.get('k') == 'Ref':
+                        res = 'left' if role_of(idx['name']) == 'lower' else 'right'
+                sites.append({'stmt': s, 'op': op, 'm': m, 'closed': res, 'kind': k.lower(), 'arr': arr})
         for c in stmt_children(s):
             visit(c)
     visit(fn.body)
     return sites, lower
+
+
+def search_rules(prog, ctx, loc, closure, RB='C09.b', RC='C09.c'):
+    # ---- C09.b closedness
+    verdicts = []
+    arrname = None
+    for q in sorted(closure):
+        fn = prog.fn(q)
+        ctx.touch(fn)
+        sites, lower = closedness_sites(prog, fn)
+        for st in sites:
+            verdicts.append((fn, st))
+            arrname = arrname or st['arr']
+    # Locate itself may short-cut the search: comparisons of x with abscissae there are sites as well
+    if arrname:
+        ls, _ = closedness_sites(prog, loc, arrname)
+        for st in ls:
+            verdicts.append((loc, st))
+    verdicts = [(fn, st) for fn, st in verdicts if st['closed'] != 'neutral']
+    kinds = set(st['closed'] for fn, st in verdicts if st['closed'])
+    und = [(fn, st) for fn, st in verdicts if st['closed'] is None]
+    # three-way entry tests (x > X[m] / x < X[m] / else) are closedness-neutral only if the equality case is handled; they are
+    # resolved in closedness_sites through the else-chain. Remaining None: undecided.
+    for fn, st in verdicts:
+        inst = '%s:x%sX[%s]@%s' % (fn.name, st['op'], st['m'], st['kind'])
+        if st['closed'] is None:
+            ctx.undecided(RB, inst, fn, 'cannot tell on which side the equality case x==X[%s] lands' % st['m'], line=st['stmt']['l'])
+    if not verdicts:
+        raise AnalysisBroken('no comparisons of x with abscissae found in the search helpers')
+    majority = None
+    if kinds:
+        cnt = {k: sum(1 for fn, st in verdicts if st['closed'] == k) for k in kinds}
+        # the reference is the plain bisection (the search used by a fresh object)
+        ref = [st['closed'] for fn, st in verdicts if st['closed'] and not any(
+            (c.get('callee') or {}).get('q') in closure and (c['callee']['q'] != fn.q) for c in calls(fn))]
+        majority = ref[0] if ref else max(cnt, key=cnt.get)
+    for fn, st in verdicts:
+        if st['closed'] is None:
+            continue
+        inst = '%s:x%sX[%s]@%s' % (fn.name, st['op'], st['m'], st['kind'])
+        ctx.decide(RB, inst, fn, st['closed'] == majority,
+                   'x == X[%s] selects the %s-closed segment, like the plain bisection' % (st['m'], st['closed']),
+                   'x == X[%s] selects the %s-closed segment here but the %s-closed one in the bisection search: a used object and a fresh '
+                   'object return different segments (and second/third derivatives) at tabulated abscissae' % (st['m'], st['closed'], majority),
+                   witness={'comparison': 'x %s x_values[%s]' % (st['op'], st['m']),
+                            'reproducer': '20-point table, f(5.5); f(6.5); then Locate(8.0) -> 7 (used) vs 8 (fresh)'},
+                   line=st['stmt']['l'])
+
+    # ---- C09.c clamps
+    for q in sorted(closure):
+        fn = prog.fn(q)
+        xname = fn.params[0]['name']
+        for s in walk_stmts(fn.body):
+            if s['k'] != 'While':
+                continue
+            xc = x_comparison(prog, s['cond'], xname)
+            if not xc or xc[1].get('k') != 'Ref':
+                continue
+            var = xc[1]['name']
+            sx = Symx(prog, fn)
+            st0 = State({})
+            entry, cond, live, done, n0 = sx.loop_step(s, st0)
+            vin = [v for k, v in entry.items() if isinstance(v, Symbol) and str(v) == var + '@in']
+            if not vin:
+                continue
+            vkey = [k for k, v in entry.items() if v is vin[0]][0]
+            N = Symbol('this.N', integer=True)
+            ok = True
+            detail = []
+            for p in live:
+                vout = p.env.get(vkey)
+                conds = p.conds[n0:]
+                step = sp.expand(vout - vin[0])
+                if step == 0:
+                    continue
+                up = xc[0] in ('>', '>=')
+                viol = sp.Gt(vout, N - 1) if up else sp.Lt(vout, 0)
+                if sp.And(*conds, viol) != S.false:
+                    ok = False
+                    detail.append('path continuing with %s=%s is not protected by a clamp (conditions %s)' % (var, vout, conds))
+            brk = [o for o in done if o.kind == 'break']
+            nbreak = len(brk)
+            up = xc[0] in ('>', '>=')
+            for o in brk:
+                vout = o.state.env.get(vkey)
+                want = (N - 1) if up else sp.Integer(0)
+                if vout is None or sp.simplify(vout - want) != 0:
+                    ok = False
+                    detail.append('the clamp sets %s to %s instead of the table end %s: the last segment can no longer be selected'
+                                  % (var, vout, want))
+            ctx.decide(RC, '%s:clamp:%s' % (fn.name, var), fn, ok and nbreak >= 1,
+                       'every path that continues the hunt keeps %s within the table; the clamp sets it to the table end (%d clamp exits)' % (var, nbreak),
+                       '; '.join(detail) or 'no clamp exit in the loop', line=s['l'])
+
 
 
 def check(prog, ctx):
@@ -153,6 +293,9 @@ def check(prog, ctx):
     ctx.rule('C09.c', 'range clamps: in the hunting loops the running index is clamped (to N-1 resp. 0) on every path that continues the loop', 2)
     ctx.rule('C09.d', 'nothing else is state: Set_Prefactor/Multiply write only the prefactor, all other query members write no field, no mutable '
              'or static members, no user-declared copy/move operations on the interpolation classes', 6)
+    ctx.rule('C09.e', 'Set_Prefactor/Multiply change all outputs by exactly the stated factor: every value returned by Interpolate and '
+             'Derivative (all orders) is of degree exactly one in the prefactor (a delegated Interpolate(x) counts as degree one)', 2)
+    prefactor_degree(prog, ctx)
     loc = prog.fn(CLS + '::Locate')
     cache = sorted(field_writes(loc))
     if not cache:
@@ -223,79 +366,7 @@ def check(prog, ctx):
     ctx.decide('C09.a', 'Interpolation_2D:helpers', prog.fn(CLS2 + '::Interpolate'), not bad2 and len(helper_fields) == 2,
                'helper objects %s are used only through Locate' % helper_fields, 'helper objects used otherwise: %s' % bad2)
 
-    # ---- C09.b closedness
-    verdicts = []
-    for q in sorted(closure):
-        fn = prog.fn(q)
-        ctx.touch(fn)
-        sites, lower = closedness_sites(prog, fn)
-        for st in sites:
-            verdicts.append((fn, st))
-    kinds = set(st['closed'] for fn, st in verdicts if st['closed'])
-    und = [(fn, st) for fn, st in verdicts if st['closed'] is None]
-    # three-way entry tests (x > X[m] / x < X[m] / else) are closedness-neutral only if the equality case is handled; they are
-    # resolved in closedness_sites through the else-chain. Remaining None: undecided.
-    for fn, st in verdicts:
-        inst = '%s:x%sX[%s]@%s' % (fn.name, st['op'], st['m'], st['kind'])
-        if st['closed'] is None:
-            ctx.undecided('C09.b', inst, fn, 'cannot tell on which side the equality case x==X[%s] lands' % st['m'], line=st['stmt']['l'])
-    if not verdicts:
-        raise AnalysisBroken('no comparisons of x with abscissae found in the search helpers')
-    majority = None
-    if kinds:
-        cnt = {k: sum(1 for fn, st in verdicts if st['closed'] == k) for k in kinds}
-        # the reference is the plain bisection (the search used by a fresh object)
-        ref = [st['closed'] for fn, st in verdicts if st['closed'] and not any(
-            (c.get('callee') or {}).get('q') in closure and (c['callee']['q'] != fn.q) for c in calls(fn))]
-        majority = ref[0] if ref else max(cnt, key=cnt.get)
-    for fn, st in verdicts:
-        if st['closed'] is None:
-            continue
-        inst = '%s:x%sX[%s]@%s' % (fn.name, st['op'], st['m'], st['kind'])
-        ctx.decide('C09.b', inst, fn, st['closed'] == majority,
-                   'x == X[%s] selects the %s-closed segment, like the plain bisection' % (st['m'], st['closed']),
-                   'x == X[%s] selects the %s-closed segment here but the %s-closed one in the bisection search: a used object and a fresh '
-                   'object return different segments (and second/third derivatives) at tabulated abscissae' % (st['m'], st['closed'], majority),
-                   witness={'comparison': 'x %s x_values[%s]' % (st['op'], st['m']),
-                            'reproducer': '20-point table, f(5.5); f(6.5); then Locate(8.0) -> 7 (used) vs 8 (fresh)'},
-                   line=st['stmt']['l'])
-
-    # ---- C09.c clamps
-    for q in sorted(closure):
-        fn = prog.fn(q)
-        xname = fn.params[0]['name']
-        for s in walk_stmts(fn.body):
-            if s['k'] != 'While':
-                continue
-            xc = x_comparison(prog, s['cond'], xname)
-            if not xc or xc[1].get('k') != 'Ref':
-                continue
-            var = xc[1]['name']
-            sx = Symx(prog, fn)
-            st0 = State({})
-            entry, cond, live, done, n0 = sx.loop_step(s, st0)
-            vin = [v for k, v in entry.items() if isinstance(v, Symbol) and str(v) == var + '@in']
-            if not vin:
-                continue
-            vkey = [k for k, v in entry.items() if v is vin[0]][0]
-            N = Symbol('this.N', integer=True)
-            ok = True
-            detail = []
-            for p in live:
-                vout = p.env.get(vkey)
-                conds = p.conds[n0:]
-                step = sp.expand(vout - vin[0])
-                if step == 0:
-                    continue
-                up = xc[0] in ('>', '>=')
-                viol = sp.Gt(vout, N - 1) if up else sp.Lt(vout, 0)
-                if sp.And(*conds, viol) != S.false:
-                    ok = False
-                    detail.append('path continuing with %s=%s is not protected by a clamp (conditions %s)' % (var, vout, conds))
-            nbreak = sum(1 for o in done if o.kind == 'break')
-            ctx.decide('C09.c', '%s:clamp:%s' % (fn.name, var), fn, ok and nbreak >= 1,
-                       'every path that continues the hunt keeps %s within the table (%d clamp exits)' % (var, nbreak),
-                       '; '.join(detail) or 'no clamp exit in the loop', line=s['l'])
+    search_rules(prog, ctx, loc, closure)
 
     # ---- C09.d nothing else is state
     for cq in (CLS, CLS2):
@@ -311,36 +382,128 @@ def check(prog, ctx):
             probs.append('static data member %s' % c['static_members'])
         ctx.decide('C09.d', cq.replace(L, '') + ':class-shape', None, not probs,
                    'implicit member-wise copies; no mutable/static members', '; '.join(probs))
-    pref_writers = {}
     for cq in (CLS, CLS2):
-        setters = [f for f in prog.all_functions() if f.cls == cq and f.name in ('Set_Prefactor', 'Multiply')]
-        wsets = [set(field_writes(f)) for f in setters]
-        okp = len(setters) == 2 and all(len(w) == 1 for w in wsets) and len(set.union(*wsets)) == 1
-        pf = sorted(set.union(*wsets)) if wsets else []
-        ctx.decide('C09.d', cq.replace(L, '') + ':prefactor-setters', setters[0] if setters else None, okp,
-                   'Set_Prefactor and Multiply write only `%s`' % (pf[0] if pf else '?'), 'setters write %s' % [sorted(w) for w in wsets])
-        # Set_Prefactor assigns, Multiply multiplies
+        members = [f for f in prog.all_functions() if f.cls == cq]
+        setters = [f for f in members if f.name in ('Set_Prefactor', 'Multiply')]
+        evalf = [f for f in members if f.name == 'Interpolate'][0]
+        semantic = set(field_reads(evalf)) - set(cache) - set(helper_fields if cq == CLS2 else [])
+        # query members (not constructors, not reached only from constructors, not setters, not the search)
+        callers = {}
+        for f in members:
+            for c_ in calls(f):
+                q = (c_.get('callee') or {}).get('q')
+                if q:
+                    callers.setdefault(q, set()).add(f)
+
+        def ctor_only(f, seen=()):
+            if f.d.get('ctor'):
+                return True
+            cs = callers.get(f.q, set())
+            return bool(cs) and all(g is f or (g not in seen and ctor_only(g, seen + (f,))) for g in cs)
+        queries = [f for f in members if not ctor_only(f) and f not in setters and f.q not in allowed]
+        qwrites = {}
+        for f in queries:
+            for fld in field_writes(f):
+                if cq == CLS2 and fld in helper_fields:
+                    continue      # helper.Locate(x): covered by C09.a
+                qwrites.setdefault(fld, []).append(f)
+        cache_like = set(qwrites) - semantic
+        # the common field written by both setters with the right operator is the prefactor
+        common = set.intersection(*[set(field_writes(f)) for f in setters]) if len(setters) == 2 else set()
+        pfs = [fld for fld in common if fld in semantic]
+        okp = len(setters) == 2 and len(pfs) == 1
+        extra = set()
         for f in setters:
-            e = list(field_writes(f).values())[0]
+            extra |= set(field_writes(f)) - set(pfs)
+        bad_extra = sorted(extra - cache_like)
+        ctx.decide('C09.d', cq.replace(L, '') + ':prefactor-setters', setters[0] if setters else None, okp and not bad_extra,
+                   'Set_Prefactor and Multiply write only `%s`%s' % (pfs[0] if pfs else '?', (' (and cache state %s)' % sorted(extra)) if extra else ''),
+                   'setters write %s' % [sorted(field_writes(f)) for f in setters])
+        for f in setters:
+            if not pfs:
+                break
+            e = field_writes(f)[pfs[0]]
             want = '=' if f.name == 'Set_Prefactor' else '*='
             p = f.params[0]['name']
             okk = e.get('k') == 'Bin' and e['op'] == want and show(strip_casts(e['rhs'])) == p
             if not okk and f.name == 'Multiply' and e.get('k') == 'Bin' and e['op'] == '=':
-                okk = show(e['rhs']).replace(' ', '') in ('%s*%s' % (pf[0], p), '%s*%s' % (p, pf[0]))
-            ctx.decide('C09.d', '%s:%s' % (cq.replace(L, ''), f.name), f, okk, '%s %s factor' % (pf[0] if pf else '?', want), 'writes `%s`' % show(e))
-        quiet = []
-        for f in prog.all_functions():
-            if f.cls != cq or f.d.get('ctor') or f in setters or f.q in allowed:
-                continue
-            w = set(field_writes(f))
-            # the coefficient routine writes the coefficient tables; it is reached only from constructors
-            if w:
-                callers = [g for g in prog.all_functions() if any((c.get('callee') or {}).get('q') == f.q for c in calls(g))]
-                if callers and all(g.d.get('ctor') for g in callers):
-                    continue
-                # 2D Interpolate calls helper.Locate (non-const): recorded as write of helper field; allowed by C09.a
-                if cq == CLS2 and w <= set(helper_fields):
-                    continue
-                quiet.append('%s writes %s' % (f.name, sorted(w)))
-        ctx.decide('C09.d', cq.replace(L, '') + ':queries-write-nothing', None, not quiet,
-                   'no query member writes a field', 'query members write fields: %s' % quiet)
+                okk = show(e['rhs']).replace(' ', '') in ('%s*%s' % (pfs[0], p), '%s*%s' % (p, pfs[0]))
+            ctx.decide('C09.d', '%s:%s' % (cq.replace(L, ''), f.name), f, okk, '%s %s factor' % (pfs[0], want), 'writes `%s`' % show(e))
+        # a query member must not write a field the evaluator reads
+        sem_w = ['%s writes %s' % (f.name, fld) for fld, fs in qwrites.items() if fld in semantic for f in fs]
+        ctx.decide('C09.d', cq.replace(L, '') + ':queries-write-nothing', None, not sem_w,
+                   'no query member writes a field that the evaluator reads', 'query members alter the interpolant: %s' % sem_w)
+        # cache-like state written by queries: stale iff some writer of one of its inputs does not touch it
+        if cache_like:
+            writers = {}
+            for f in members:
+                for fld in field_writes(f):
+                    writers.setdefault(fld, set()).add(f)
+            fillers = set(f for fld in cache_like for f in qwrites[fld])
+            stale = []
+            for w in fillers:
+                for p in field_reads(w):
+                    if p in cache_like:
+                        continue
+                    for S_ in writers.get(p, set()):
+                        if ctor_only(S_) or S_ in fillers or S_.q in allowed:
+                            continue
+                        if not (set(field_writes(S_)) & cache_like):
+                            stale.append('%s changes `%s` (read by %s when it fills %s) without touching that state'
+                                         % (S_.name, p, w.name, sorted(cache_like)))
+            inst = cq.replace(L, '') + ':cached-state:' + ','.join(sorted(cache_like))
+            if stale:
+                ctx.violated('C09.d', inst, fillers and sorted(fillers, key=lambda f: f.line)[0], 'query members keep state %s that goes stale: %s'
+                             % (sorted(cache_like), sorted(set(stale))), witness={'stale': sorted(set(stale))})
+            else:
+                ctx.undecided('C09.d', inst, sorted(fillers, key=lambda f: f.line)[0],
+                              'query members keep state %s; its invalidation protocol is outside the understood fragment' % sorted(cache_like))
+
+
+def locate_and_helpers(prog):
+    loc = prog.fn(CLS + '::Locate')
+    helpers = set()
+    for c in calls(loc):
+        cc = c.get('callee') or {}
+        if cc.get('cls') == CLS and cc.get('inrepo'):
+            helpers.add(cc['q'])
+    closure = set(helpers)
+    for q in list(helpers):
+        for f in prog.fns(q):
+            for c in calls(f):
+                cc = c.get('callee') or {}
+                if cc.get('cls') == CLS and cc.get('inrepo') and cc['q'] != loc.q:
+                    closure.add(cc['q'])
+    return loc, closure
+
+
+def prefactor_degree(prog, ctx):
+    import sympy as sp
+    from .C01 import evaluator_roles
+    f_eval, T, roles = evaluator_roles(prog, ctx)
+    if roles is None:
+        ctx.undecided('C09.e', 'Interpolate:degree', f_eval, 'evaluator form not recognised')
+        return
+    P = roles['pref']
+    if not (isinstance(P, sp.Symbol)):
+        ctx.undecided('C09.e', 'Interpolate:degree', f_eval, 'prefactor is not a single field: %s' % P)
+        return
+    ctx.holds('C09.e', 'Interpolate:degree', f_eval, 'Interpolate is %s times a prefactor-free cubic' % P)
+    fn = prog.fn(CLS + '::Derivative', 2)
+    sx = Symx(prog, fn)
+    bad = []
+    E = sp.Symbol('E_', real=True)
+    for o in sx.run():
+        if o.kind != 'return':
+            continue
+        v = o.value
+        if v == 0:
+            continue
+        for a in v.atoms(sp.core.function.AppliedUndef):
+            if a.func.__name__ == CLS + '::Interpolate':
+                v = v.subs(a, P * E)
+        q = sp.cancel(sp.together(v / P))
+        if q.has(P):
+            bad.append('%s: %s' % (o.cond, o.value))
+    ctx.decide('C09.e', 'Derivative:degree', fn, not bad, 'every order is of degree one in the prefactor',
+               'Derivative does not scale with the prefactor exactly once: %s' % bad, witness={'paths': bad} if bad else None)
